@@ -38,44 +38,34 @@ theorem nameOf_ok (d : Y) : (nameOf d).isNone = true ∨ (nameOf d).isStr = true
   · split <;> simp [Y.isNone, Y.isStr]
   · simp [Y.isNone]
 
-/-- a loader call as seen by the loop: no Python exception in either mode, and (when the
-correlation constructor accepts the document) strict mode raises the first error collecting mode collects -/
-structure GoodRes (res : Bool → R (List SigmaCls)) (post : Prop) : Prop where
+/-- a loader call as seen by the loop: no Python exception in either mode, collecting mode returns
+an error list, and strict mode raises the first error of that list (or succeeds when it is empty) -/
+structure GoodRes (res : Bool → R (List SigmaCls)) : Prop where
   noPy : ∀ b, NoPy (res b)
-  rel : post → ∃ errs, res true = .ok errs ∧ res false = strictOf errs
+  rel : ∃ errs, res true = .ok errs ∧ res false = strictOf errs
 
-theorem good_rule (d : Y) (post : Prop) : GoodRes (fun b => ruleFromDict b d) post :=
-  ⟨by intro b; cases b
-      · rw [rule_strict_eq]; unfold strictOf; split <;> simp
-      · rw [rule_collect_eq]; simp,
-   fun _ => ⟨_, rule_collect_eq d, rule_strict_eq d⟩⟩
+theorem strictOf_noPy (errs : List SigmaCls) : NoPy (strictOf errs) := by
+  unfold strictOf; split <;> simp
 
-theorem good_filter (d : Y) (post : Prop) : GoodRes (fun b => filterFromDict b d) post :=
+theorem good_of_eqs {res : Bool → R (List SigmaCls)} {errs : List SigmaCls}
+    (h1 : res true = .ok errs) (h2 : res false = strictOf errs) : GoodRes res :=
   ⟨by intro b; cases b
-      · rw [filter_strict_eq]; unfold strictOf; split <;> simp
-      · rw [filter_collect_eq]; simp,
-   fun _ => ⟨_, filter_collect_eq d, filter_strict_eq d⟩⟩
+      · rw [h2]; exact strictOf_noPy errs
+      · rw [h1]; simp,
+   ⟨errs, h1, h2⟩⟩
 
-theorem good_corr (d : Y) : GoodRes (fun b => corrFromDict b d) (corrPost d = .ok ()) :=
-  ⟨by intro b; cases b
-      · rw [corr_strict_eq]
-        refine OnlyPy.bind (by unfold strictOf; split <;> simp) (fun _ _ => ?_)
-        exact (corrPost_noPy d).bind (fun _ _ => by simp)
-      · rw [corr_collect_eq]; exact (corrPost_noPy d).bind (fun _ _ => by simp),
-   fun h => ⟨corrErrs d, by rw [corr_collect_eq, h]; rfl, by
-      rw [corr_strict_eq, h]; unfold strictOf; split <;> rfl⟩⟩
-
-theorem good_tail (errs : List SigmaCls) (post : Prop) : GoodRes (fun b => tailRaise b errs) post :=
-  ⟨by intro b; cases b
-      · rw [tailRaise_false]; unfold strictOf; split <;> simp
-      · simp,
-   fun _ => ⟨errs, by simp, tailRaise_false errs⟩⟩
+theorem good_rule (d : Y) : GoodRes (fun b => ruleFromDict b d) := good_of_eqs (rule_collect_eq d) (rule_strict_eq d)
+theorem good_filter (d : Y) : GoodRes (fun b => filterFromDict b d) := good_of_eqs (filter_collect_eq d) (filter_strict_eq d)
+/-- correlation rules too (since the repair of D8i): the constructor's validation error is part of the list -/
+theorem good_corr (d : Y) : GoodRes (fun b => corrFromDict b d) := good_of_eqs (corr_collect_eq d) (corr_strict_eq d)
+theorem good_tail (errs : List SigmaCls) : GoodRes (fun b => tailRaise b errs) :=
+  good_of_eqs (tailRaise_true errs) (tailRaise_false errs)
 
 /-- one loop iteration = a loader call (`res`) followed by a mode-independent state update (`upd`) -/
 theorem collStep_shape (st : CollSt) (hinv : Inv st) (doc : Y) :
     ∃ (res : Bool → R (List SigmaCls)) (upd : CollSt),
       (∀ b, collStep b st doc = res b >>= fun es => pure { upd with errs := st.errs ++ es }) ∧
-      Inv upd ∧ GoodRes res (corrPost doc = .ok ()) := by
+      Inv upd ∧ GoodRes res := by
   cases doc
   case map dm =>
     simp only [collStep, Y.isMap, pyGet, pyKeys, pure_eq, ok_bind, Bool.not_true, Bool.false_eq_true, if_false]
@@ -93,7 +83,7 @@ theorem collStep_shape (st : CollSt) (hinv : Inv st) (doc : Y) :
         by_cases hf : ((dm.map (·.1)).any fun x => keyIs x (S "filter")) = true
         · simp only [hf, if_true]
           exact ⟨fun b => filterFromDict b (.map dm), { st with nFilters := st.nFilters + 1 }, fun b => rfl,
-            ⟨hinv.prev, hinv.glob, hinv.names⟩, good_filter _ _⟩
+            ⟨hinv.prev, hinv.glob, hinv.names⟩, good_filter _⟩
         · simp only [hf]
           have hg := hinv.glob
           cases hgl : st.glob <;> simp [hgl, Y.isMap] at hg
@@ -107,19 +97,19 @@ theorem collStep_shape (st : CollSt) (hinv : Inv st) (doc : Y) :
               intro n hn; simp only [List.mem_append, List.mem_singleton] at hn
               rcases hn with hn | rfl
               · exact hinv.names n hn
-              · exact nameOf_ok _⟩, good_rule _ _⟩
+              · exact nameOf_ok _⟩, good_rule _⟩
     · simp only [ha]
       by_cases h1 : strEq (dget dm (S "action")) (S "global") = true
       · simp only [h1, if_true, pyItems, pure_eq, ok_bind]
         exact ⟨fun b => tailRaise b [], { st with glob := .map (dictDelKey dm (S "action")), prev := .map (dictDelKey dm (S "action")), prevIsGlob := true },
           by intro b; cases b <;> simp,
-          ⟨rfl, rfl, hinv.names⟩, good_tail _ _⟩
+          ⟨rfl, rfl, hinv.names⟩, good_tail _⟩
       · simp only [h1]
         by_cases h2 : strEq (dget dm (S "action")) (S "reset") = true
         · simp only [h2, if_true]
           exact ⟨fun b => tailRaise b [], { st with glob := .map [], prevIsGlob := false },
             by intro b; cases b <;> simp,
-            ⟨hinv.prev, rfl, hinv.names⟩, good_tail _ _⟩
+            ⟨hinv.prev, rfl, hinv.names⟩, good_tail _⟩
         · simp only [h2]
           by_cases h3 : strEq (dget dm (S "action")) (S "repeat") = true
           · simp only [h3, if_true, pyItems, pure_eq, ok_bind]
@@ -132,15 +122,15 @@ theorem collStep_shape (st : CollSt) (hinv : Inv st) (doc : Y) :
                 intro n hn; simp only [List.mem_append, List.mem_singleton] at hn
                 rcases hn with hn | rfl
                 · exact hinv.names n hn
-                · exact nameOf_ok _⟩, good_rule _ _⟩
+                · exact nameOf_ok _⟩, good_rule _⟩
           · simp only [h3]
             exact ⟨fun b => tailRaise b [.collectionError], st,
               by intro b; cases b <;> simp,
-              hinv, good_tail _ _⟩
+              hinv, good_tail _⟩
   all_goals
     exact ⟨fun b => tailRaise b [.collectionError], st,
       by intro b; cases b <;> simp [collStep, Y.isMap],
-      hinv, good_tail _ _⟩
+      hinv, good_tail _⟩
 
 end SigmaVerif.Load
 
@@ -182,32 +172,31 @@ theorem collFromDicts_noPy (b : Bool) (ds : List Y) : NoPy (collFromDicts b ds) 
   rw [collPostInit_ok st (h2 st hst)]
   simp
 
-/-- collecting mode runs through (when no correlation constructor rejects a document); the error
-list only grows -/
-theorem collLoop_collect : ∀ (ds : List Y) (st : CollSt), Inv st → (∀ d ∈ ds, corrPost d = .ok ()) →
+/-- collecting mode runs through; the error list only grows -/
+theorem collLoop_collect : ∀ (ds : List Y) (st : CollSt), Inv st →
     ∃ st', collLoop true st ds = .ok st' ∧ Inv st' ∧ ∃ more, st'.errs = st.errs ++ more
-  | [], st, h, _ => ⟨st, rfl, h, [], by simp⟩
-  | d :: ds, st, h, hp => by
+  | [], st, h => ⟨st, rfl, h, [], by simp⟩
+  | d :: ds, st, h => by
       obtain ⟨res, upd, hstep, hupd, hgood⟩ := collStep_shape st h d
-      obtain ⟨errs, hc, _⟩ := hgood.rel (hp d (by simp))
+      obtain ⟨errs, hc, _⟩ := hgood.rel
       simp only [collLoop, hstep true, hc, ok_bind, pure_eq]
-      obtain ⟨st', h1, h2, more, h3⟩ := collLoop_collect ds _ (inv_withErrs hupd (st.errs ++ errs)) (fun x hx => hp x (by simp [hx]))
+      obtain ⟨st', h1, h2, more, h3⟩ := collLoop_collect ds _ (inv_withErrs hupd (st.errs ++ errs))
       exact ⟨st', h1, h2, errs ++ more, by simp [h3]⟩
 
 /-- strict mode against collecting mode, document by document -/
-theorem collLoop_modes : ∀ (ds : List Y) (st : CollSt), Inv st → (∀ d ∈ ds, corrPost d = .ok ()) →
+theorem collLoop_modes : ∀ (ds : List Y) (st : CollSt), Inv st →
     (∀ st', collLoop false st ds = .ok st' → collLoop true st ds = .ok st' ∧ st'.errs = st.errs) ∧
     (∀ e, collLoop false st ds = .error (.sigma e) →
       ∃ st'' rest, collLoop true st ds = .ok st'' ∧ Inv st'' ∧ st''.errs = st.errs ++ e :: rest)
-  | [], st, h, _ => ⟨by intro st' hs; simp [collLoop] at hs ⊢; subst hs; simp, by intro e he; simp [collLoop] at he⟩
-  | d :: ds, st, h, hp => by
+  | [], st, h => ⟨by intro st' hs; simp [collLoop] at hs ⊢; subst hs; simp, by intro e he; simp [collLoop] at he⟩
+  | d :: ds, st, h => by
       obtain ⟨res, upd, hstep, hupd, hgood⟩ := collStep_shape st h d
-      obtain ⟨errs, hc, hs⟩ := hgood.rel (hp d (by simp))
+      obtain ⟨errs, hc, hs⟩ := hgood.rel
       simp only [collLoop, hstep true, hstep false, hc, hs, ok_bind, pure_eq]
       cases errs with
       | nil =>
         simp only [strictOf, ok_bind, List.append_nil]
-        obtain ⟨i1, i2⟩ := collLoop_modes ds { upd with errs := st.errs } (inv_withErrs hupd _) (fun x hx => hp x (by simp [hx]))
+        obtain ⟨i1, i2⟩ := collLoop_modes ds { upd with errs := st.errs } (inv_withErrs hupd _)
         exact ⟨i1, i2⟩
       | cons e rest =>
         simp only [strictOf, error_bind]
@@ -215,15 +204,14 @@ theorem collLoop_modes : ∀ (ds : List Y) (st : CollSt), Inv st → (∀ d ∈ 
         intro e' he'
         cases he'
         obtain ⟨st', h1, h2, more, h3⟩ := collLoop_collect ds { upd with errs := st.errs ++ e :: rest } (inv_withErrs hupd _)
-          (fun x hx => hp x (by simp [hx]))
         exact ⟨st', rest ++ more, h1, h2, by simp [h3]⟩
 
 end SigmaVerif.Load
 
 namespace SigmaVerif.Load
 
-/-- the constructor of `SigmaCorrelationRule` rejects the document (cross-field validation of
-`__post_init__`, the class of finding D8i); decidable -/
+/-- the cross-field validation of the constructor of `SigmaCorrelationRule` (`_validate`) rejects the
+values `from_dict` builds from the document (the documents of former finding D8i); decidable -/
 def postInitFails (d : Y) : Prop := corrPost d ≠ .ok ()
 
 instance (d : Y) : Decidable (postInitFails d) := by unfold postInitFails; infer_instance
